@@ -155,7 +155,7 @@ var limits = []int{-1, 0, 1, 2, 3, 5, 100}
 // Gen draws a case for the given store kind ("" = drawn).
 func Gen(store string) func(t *rapid.T) *Case {
 	return func(t *rapid.T) *Case {
-		c := &Case{Store: store}
+		c := &Case{Store: store, ReqCtx: rapid.Bool().Draw(t, "reqCtx")}
 		if store == "" {
 			c.Store = rapid.SampledFrom([]string{"memory", "sqlite", "durable"}).Draw(t, "store")
 		}
